@@ -168,6 +168,8 @@ def plan(exp, tier):
         lems_layout = ls
         matcore.add_inverted(u, ms, prologue='proof { crate::vec::lemma_sm_new_all(); } ' + pro)
         affcore.add_affine(u, ms)
+        veccore.add_unit_ctors(u)
+        matcore.add_affine_inverses(u, ms)
         add_viewport(u, ms)
         add_picking(u, ms)
         add_theorems(u, ms, lp)
